@@ -131,6 +131,82 @@ def extract(repo):
         raise ExtractError("make_onchain_policy: unexpected body")
     min_funding_depth = int(om.group(1))
 
+    # ---- policy tags used on the modelled paths ------------------------------------------
+    def tags_of(src, header, allow_var=()):
+        """(filterable tags, unfiltered tags) of one function body; a policy_err! whose tag is not a
+        string literal must be one of the known variable names in allow_var"""
+        body = body_after(src, header)
+        filt, hard = [], []
+        for m in re.finditer(r"\b(temporary_policy_err|policy_err)!\s*\(\s*(\w+)\s*,\s*(\"[^\"]*\"|\w+)\s*,", body):
+            t = m.group(3)
+            if t.startswith('"'):
+                filt.append(t.strip('"'))
+            elif t not in allow_var:
+                raise ExtractError("policy_err! with a non-literal tag `%s` in %s" % (t, header))
+        for m in re.finditer(r"\bpolicy_error\(\s*\"([^\"]*)\"", body):
+            hard.append(m.group(1))
+        return body, filt, hard
+
+    # validate_delay builds its tag from the name passed by validate_setup_channel
+    dbody, dfilt, _ = tags_of(sv, r"fn\s+validate_delay\s*\(", allow_var=("tag",))
+    if dfilt or len(re.findall(r'let\s+tag\s*=\s*format!\("policy-channel-contest-delay-range-\{\}",\s*name\)', dbody)) != 2:
+        raise ExtractError("validate_delay: unexpected tag construction")
+    sbody, sfilt, shard = tags_of(sv, r"fn\s+validate_setup_channel\s*\(")
+    dnames = re.findall(r'self\.validate_delay\(\s*"(\w+)"', sbody)
+    if sorted(dnames) != ["counterparty", "holder"]:
+        raise ExtractError("validate_setup_channel: unexpected validate_delay calls " + str(dnames))
+    setup_tags = sorted(set(sfilt + ["policy-channel-contest-delay-range-" + n for n in dnames]))
+    _, vfilt, _ = tags_of(sv, r"fn\s+validate_channel_value\s*\(")
+    _, efilt, _ = tags_of(sv, r"fn\s+validate_expiry\s*\(")
+    _, ffilt, fhard = tags_of(sv, r"fn\s+validate_fee\s*\(", allow_var=("tag",))
+    if ffilt or fhard:
+        raise ExtractError("validate_fee: expected only the tag passed by the caller")
+    cbody2, cfilt, chard = tags_of(sv, r"fn\s+validate_commitment_tx\s*\(")
+    cfee = re.findall(r'self\.validate_fee\(\s*"([^"]*)"', cbody2)
+    if len(cfee) != 1 or "self.validate_expiry(" not in cbody2:
+        raise ExtractError("validate_commitment_tx: expected one validate_fee call and validate_expiry calls")
+    commitment_tags = sorted(set(cfilt + cfee + efilt))
+    mbody, mfilt, mhard = tags_of(sv, r"fn\s+validate_mutual_close_tx\s*\(")
+    mfee = re.findall(r'self\.validate_fee\(\s*"([^"]*)"', mbody)
+    if len(mfee) != 1:
+        raise ExtractError("validate_mutual_close_tx: expected one validate_fee call")
+    _, dmfilt, _ = tags_of(sv, r"fn\s+decode_and_validate_mutual_close_tx\s*\(")
+    mutual_tags = sorted(set(mfilt + mfee))
+    mutual_phase1_tags = sorted(set(dmfilt))
+    _, ofilt, _ = tags_of(oc, r"fn\s+ensure_funding_buried_and_unspent\s*\(")
+    onchain_tags = sorted(set(ofilt))
+    size_tags = sorted(set(vfilt))
+    hard_tags = sorted(set(shard + chard + mhard))
+
+    # filters built elsewhere in the workspace (front ends); informational, the property is about the
+    # library's default policy and whatever non-permissive policy is passed in
+    import os
+    frontend = []
+    for root, dirs, files in os.walk(repo):
+        dirs[:] = [d for d in dirs if d not in ("target", ".git", "fuzz")]
+        for fn in files:
+            if not fn.endswith(".rs") or fn.endswith("_tests.rs"):
+                continue
+            path = os.path.join(root, fn)
+            rel = os.path.relpath(path, repo)
+            if rel.startswith("vls-core/src/policy/filter.rs"):
+                continue
+            try:
+                txt = strip_comments(open(path, errors="replace").read())
+            except OSError:
+                continue
+            cut = txt.find("#[cfg(test)]")
+            if cut >= 0:
+                txt = txt[:cut]
+            for m in re.finditer(r'FilterRule::new_warn\(\s*"([^"]*)"', txt):
+                frontend.append((rel, m.group(1)))
+            if "PolicyFilter::new_permissive()" in txt:
+                frontend.append((rel, "*permissive*"))
+    frontend = sorted(set(frontend))
+
+    def lean_strs(xs):
+        return "[" + ", ".join('"' + x + '"' for x in xs) + "]"
+
     def lean_rule(r):
         return f"⟨\"{r[0]}\", {str(r[1]).lower()}, .{r[2]}⟩"
 
@@ -147,6 +223,17 @@ def extract(repo):
             f"/-- tags (or prefixes) the default filter downgrades to a warning -/\ndef defaultDowngraded : List String := [{', '.join(chr(34) + t + chr(34) for t in downgraded)}]\n"
             + lean_policy("defaultMainnet", mainnet, "defaultFilter")
             + lean_policy("defaultTestnet", testnet, "defaultFilter")
+            + "/-- tags of the `policy_err!` sites (filterable) on the modelled paths, per function group -/\n"
+            + f"def setupPathTags : List String := {lean_strs(setup_tags)}\n"
+            + f"def sizePathTags : List String := {lean_strs(size_tags)}\n"
+            + f"def commitmentPathTags : List String := {lean_strs(commitment_tags)}\n"
+            + f"def onchainPathTags : List String := {lean_strs(onchain_tags)}\n"
+            + f"def mutualPathTags : List String := {lean_strs(mutual_tags)}\n"
+            + f"def mutualPhase1PathTags : List String := {lean_strs(mutual_phase1_tags)}\n"
+            + "/-- tags of unfiltered `policy_error(..)?` sites on the same paths (never downgraded) -/\n"
+            + f"def hardPathTags : List String := {lean_strs(hard_tags)}\n"
+            + "/-- (file, tag) of warn rules / permissive filters constructed by front ends outside vls-core's default -/\n"
+            + "def frontendDowngrades : List (String × String) := [" + ", ".join('("%s", "%s")' % (f, t) for f, t in frontend) + "]\n"
             + f"def minDustLimit : Nat := {min_dust}\n"
             f"def minChanDustLimit : Nat := {min_chan_dust}\n"
             f"def commitmentBaseWeight : Nat := {base_w}\n"
@@ -163,8 +250,13 @@ def extract(repo):
              "COMMITMENT_TX_BASE_WEIGHT": base_w, "COMMITMENT_TX_BASE_ANCHOR_WEIGHT": anchor_w,
              "COMMITMENT_TX_WEIGHT_PER_HTLC": per_htlc_w, "EXPECTED_MUTUAL_CLOSE_WITNESS_WEIGHT": close_wit_w,
              "MAX_CLTV_EXPIRY": max_cltv, "min_funding_depth": min_funding_depth,
+             "policy_err_tags": {"setup": setup_tags, "size": size_tags, "commitment": commitment_tags,
+                                 "onchain": onchain_tags, "mutual": mutual_tags, "mutual_phase1": mutual_phase1_tags,
+                                 "unfiltered": hard_tags},
+             "frontend_filter_constructions": frontend,
              "SAFE_COMMITMENT_TYPE": safe, "validate_fee": "exact rate (fee as u128 * 1000 + 999) / weight compared against min/max as u128"}
-    obl = ["Gen.Policy: the default filter maps every C05/C07 tag to Error (examples default_filter_nonpermissive in Props/C05, Props/C07)",
+    obl = ["Gen.Policy: the default filter of both networks maps every generated policy_err! tag of the modelled paths to Error (theorems C05_default_filter_strict, C07_default_filter_strict)",
+           "Gen.Policy: the generated tag lists and the model's tags coincide (theorems C05_gen_tags_covered, C07_gen_tags_covered)",
            "Gen.Policy: weights are positive (theorem C05_gen_weights_pos), so validate_fee never divides by zero",
            "validate_fee has the modelled exact-rate comparison (translator fails closed otherwise)"]
     return {"Policy.lean": lean}, {"C05": {"facts": facts, "obligations": obl},
